@@ -29,7 +29,7 @@ func init() {
 		ID:    "C15",
 		Level: "exploration",
 		Rule: "every known message number x all 256 lookup slots x every struct field x every container member: static agreement (slot=num, struct index in range / injective / surjective, Go type = f(base,array,kind), constructor value = invalid, size*length<=255, type/constructor tables consistent with the known set, reverse lookup unique) " +
-			"plus, per entry of a hosted message, a dynamic confirmation: a one-field stream of the profile's own type is decoded, must land in exactly that struct field, and is re-encoded and decoded back. distinct = distinct (message, field) entries checked",
+			"plus a re-check of all of it after the encoder was exercised on every array entry of every message slice (the tables are read-only), plus, per entry of a hosted message, a dynamic confirmation: a one-field stream of the profile's own type is decoded, must land in exactly that struct field, and is re-encoded and decoded back. distinct = distinct (message, field) entries checked",
 		Assumptions: []string{"table contents reach the harness through the verif-tagged read-only exports"},
 		Run:         runC15,
 		Workers:     4,
@@ -329,6 +329,50 @@ func runC15(w *vx.W) {
 		}
 		if i == 300 {
 			w.Sample(map[string]interface{}{"mesg": e.Mesg.String(), "field": e.Num, "sindex": e.Sindex, "base": e.Base, "array": e.Array, "kind": e.Kind, "length": e.Length, "stream_hex": vx.Hex(stream)})
+		}
+	}
+	// ---- the tables are read-only: after exercising the encoder on every array-valued entry of every message
+	// slice (arrays longer and shorter than the profile length, two messages per slice) and the decoder on the
+	// dynamic confirmations above, every entry must still pass the static checks and the table digest is unchanged
+	before := tablesDigest()
+	for _, gs := range genSlots() {
+		if gs.Common != "" || !gs.Slot.IsSlice {
+			continue
+		}
+		for _, e := range p.byMesg[gs.Mesg] {
+			if !e.Array || e.Kind != kindNative || e.Base == fitmodel.String {
+				continue
+			}
+			f, err := fit.NewFile(fit.FileType(gs.FT), fit.NewHeader(fit.V20, true))
+			if err != nil {
+				continue
+			}
+			c := container(f)
+			fv := c.Elem().Field(gs.Slot.Index)
+			for mi, n := range []int{200, 1, int(e.Length) + 3} {
+				mv := fit.VerifNewMesg(fit.MesgNum(gs.Mesg))
+				sl := reflect.MakeSlice(mv.Field(e.Sindex).Type(), n, n)
+				for j := 0; j < n; j++ {
+					setInt(sl.Index(j), uint64(j+1+mi), fitmodel.BaseSize(e.Base), false)
+				}
+				mv.Field(e.Sindex).Set(sl)
+				fv.Set(reflect.Append(fv, mv.Addr()))
+			}
+			safeEncode(f, false)
+			safeEncode(f, true)
+			w.Eval(2)
+			w.Fam("encoder-exercised-for-table-immutability", 1)
+		}
+	}
+	if after := tablesDigest(); after != before {
+		w.Violation("tables-mutated-at-run-time", "the profile lookup table changed while encoding Files with array fields (digest before "+before+", after "+after+")", c15Replay{What: "immutability"})
+	}
+	for i, e := range fit.VerifFields() {
+		if !w.Mine(int64(i)) {
+			continue
+		}
+		if msg := c15Static(e); msg != "" {
+			w.Violation(fmt.Sprintf("static-after-use/%d.%d", e.Mesg, e.Slot), fmt.Sprintf("after encoder/decoder use, message %d (%v) field %d: %s", e.Mesg, e.Mesg, e.Slot, msg), c15Replay{Mesg: uint16(e.Mesg), Slot: e.Slot, What: "static-after-use"})
 		}
 	}
 	_ = reflect.TypeOf
